@@ -650,14 +650,13 @@ func TestVerifConsts(t *testing.T) {
 		t.Skip("VERIF_OUT not set")
 	}
 	var sb strings.Builder
-	// the names examineConnectError accepts: probed through the examiner itself
+	// the names of the 16 error codes as the linked connect-go prints them (what the examiner's loop
+	// compares against).  They are NOT probed through the examiner: which strings the examiner accepts
+	// is the differential run's business (a wider or narrower examiner must disagree with the model on
+	// a concrete input, not merely change a constant).
 	var names []string
-	for code := connect.Code(0); code <= 20; code++ {
-		p := &verifC13Printer{}
-		examineConnectError([]byte(fmt.Sprintf(`{"code":%q}`, code.String())), p)
-		if len(p.msgs) == 0 {
-			names = append(names, verifC13Bytes(code.String()))
-		}
+	for code := connect.Code(1); code <= 16; code++ {
+		names = append(names, verifC13Bytes(code.String()))
 	}
 	sb.WriteString("Definition c13_code_names : list (list N) := [" + strings.Join(names, "; ") + "].\n")
 	sb.WriteString("Definition c13_any_prefix : list N := " + verifC13Bytes(internal.DefaultAnyResolverPrefix) + ".\n")
